@@ -16,7 +16,7 @@ OK = "Definition ok (c : node * list (dials * event * eobs)) : bool := scenario_
 
 BASE_W = dict(accept=3, cer=6, pre_handshake=2, cer_plus=1, cea=6, conndone=6, request=6, bad_request=2, dwr=1.5, dwa=1,
               dpr=1, dpa=0.5, stray_answer=1, retransmit=1, burst=1, close=1.2, readerr=0.8, stall=0.4,
-              app_answer=5, bad_app_answer=0.7, tick=4)
+              app_answer=5, bad_app_answer=0.7, tick=4, app_request=0, answer_request=0, odd_answer=0, dpa_for_dpr=0, stop=0)
 
 
 def weights(**over):
